@@ -532,7 +532,7 @@ pub fn generate(rng: &mut Rng, tier: Tier, workers: usize) -> Scenario {
     // rarely: one instance has a very long life before the others are created / cloned from it
     if rng.chance(0.001) && base.params.sum_periods(base.kind) <= 64 {
         let fault = if rng.chance(0.4) { Some(*rng.pick(&world::VALUE_FAULTS)) } else { None };
-        ops.push(Op::Gen { n: 0, g: World::random_desc(rng), skip: 0, len: rng.range(66_000, 80_000) as u64, fault, every: if fault.is_some() { rng.range(2, 3000) as u64 } else { 0 }, reset_every: 0 });
+        ops.push(Op::Gen { n: 0, g: World::random_desc(rng), skip: 0, len: rng.range(66_000, 80_000) as u64, fault, every: if fault.is_some() { rng.range(2, 3000) as u64 } else { 0 }, reset_every: 0, clone_every: 0 });
     }
     let n_ops = n_ops + ops.len();
     let mut live: Vec<usize> = (0..k0).collect();
